@@ -513,6 +513,12 @@ def r5_monophony(ctx):
     eq, cex, unknown = G.compare(fm, lambda v: v['k'] and not v['c'] and v['n'], {kern: 'k', chord: 'c', note: 'n'})
     if unknown:
         quantities = (f"spine_types({d}, ['**kern'])", 'filter_by_categories=[TokenCategory.CHORD])', 'filter_by_categories=[TokenCategory.NOTE_REST])')
+        whole = [a_ for a_ in unknown if f'spine_types({d})' in a_.replace(' ', '').replace('document=', '') and 'len(' not in a_]
+        if whole:
+            ctx.violation('R5', f.loc, f.qualname, 'monophony-compares-all-spines',
+                          f'is_monophonic tests `{whole[0][:70]}`: the list of ALL spine types, so a document with one **kern spine next to a '
+                          f'**text or **dynam spine is not monophonic any more (the statement counts the **kern spines)')
+            return
         if not all(any(q_ in a_ for q_ in quantities) for a_ in unknown):
             raise AnalysisError(f'{f.loc}: is_monophonic depends on {sorted(unknown)[:2]}: not one of the three facts the rule knows')
         # a different comparison on one of the three known quantities: recognised, and not the stated one
